@@ -425,6 +425,9 @@ def run(ctx):
             if nsw:
                 ok2 = sb in cfg.reach(f, [nsw[1]], avoid=[bb]) and all(b in cfg.reach(f, [nsw[2]], avoid=[bb]) for b in kinds.get("StructuredNew", []))
                 ctx.check(ok2, "C13-R5", "nokvp-is-string", "a no-kvp directive leads to the message-literal branch; otherwise the key-value branch", f.where(nsw[0]))
+    # an unusable `ref` is never edited: the insert routine's selection tables (shared with C05-R1)
+    from .c03 import c05_run_r1_insert, _Only
+    c05_run_r1_insert(_Only(ctx, "C13-R2", ("table|insert", "extra-condition|insert", "anchor|filters", "loop-filtered")), facts)
     gram.g9_kvp_value(ctx, g, "C13-G")
     gram.g15_kvp_args(ctx, g, "C13-G")
     gram.g6_modifiers(ctx, g, "C13-G")
